@@ -18,7 +18,8 @@ Record closed : Prop := {
   c_buffer : forall b w, I w -> I (w <| buffer := b |>);
   c_counter : forall n w, I w -> I (w <| counter := n |>);
   c_storage : forall t b w, I w -> I (w <| storage := aupd t b (storage w) |>);
-  c_dropcb : forall t w, I w -> I (drop_callback t w);
+  c_dropped : forall t k w, I w -> lookup_storage t w = LDead -> I (rn_dropped t k w);
+  c_missing : forall t k w, I w -> lookup_storage t w = LNoStorage -> I (rn_despawn_missing t k w);
   c_despawn : forall t w, I w -> I (despawn t w);
   c_cbbump : forall t cb b w, I w -> I (cb_bump t cb b w);
   c_oncefin : forall t tk w, I w -> I (once_finish t tk w);
@@ -59,10 +60,6 @@ Proof.
   intros Hw. unfold rn_postpone. apply (c_emit HC). apply (c_emit HC).
   change (I (w <| buffer := buffer w ++ [mkBuf t su cl] |>)). apply (c_buffer HC). exact Hw.
 Qed.
-Lemma closed_dropped t k w : I w -> I (rn_dropped t k w).
-Proof. intros Hw. unfold rn_dropped. apply (c_emit HC). apply (c_dropcb HC). exact Hw. Qed.
-Lemma closed_despawn_missing t k w : I w -> I (rn_despawn_missing t k w).
-Proof. intros Hw. unfold rn_despawn_missing. apply (c_emit HC). apply (c_despawn HC). apply (c_dropcb HC). exact Hw. Qed.
 Lemma closed_abort_cleanup su cl w : I w -> I (rn_abort_cleanup su cl w).
 Proof. intros Hw. unfold rn_abort_cleanup. apply (c_emit HC). apply (c_cleanup HC). exact Hw. Qed.
 Lemma closed_discard_pop b rest w : I w -> I (rn_discard_pop b rest w).
@@ -114,9 +111,9 @@ Proof.
     bind_inv E w2 E2. assert (H2 : I w2) by (eapply IH; [exact H1|exact E2]).
     bind_inv E w3 E3.
     assert (H3 : I w3).
-    { destruct (lookup_storage t w2).
-      - eapply IH; [|exact E3]. apply closed_dropped. exact H2.
-      - eapply IH; [|exact E3]. apply closed_despawn_missing. exact H2.
+    { destruct (lookup_storage t w2) eqn:EL2.
+      - eapply IH; [|exact E3]. apply (c_dropped HC); assumption.
+      - eapply IH; [|exact E3]. apply (c_missing HC); assumption.
       - inversion E3; subst. apply closed_reinsert. exact H2.
       - inversion E3; subst. apply closed_reinsert. exact H2. }
     bind_inv E w4 E4. assert (H4 : I w4) by (eapply IH; [exact H3|exact E4]).
@@ -136,7 +133,7 @@ Proof.
       inversion E; subst. apply (c_oncefin HC). exact H2.
     + eapply IH; [|exact E]. apply (c_cbbump HC). exact Hw.
   - (* IBody *)
-    destruct (find_sys P t) as [sd|]; [|discriminate E].
+    cbn zeta in E. set (sd := sys_or_default P t) in *.
     assert (Hb : I (body_begin P sd t runno captured w)) by (apply (c_body HC); exact Hw).
     destruct (sd_kind sd).
     + destruct (acts P (OSys t runno) 0 (script_of P t runno) (body_begin P sd t runno captured w)) as [w1 cs] eqn:EA.
